@@ -23,7 +23,9 @@ var Def = driver.PropDef{
 		"R1 no double counting (a byte counter that is only ever added to must not be `+=`-ed into another variable inside a loop; applied to every atomic2.Int64 local of dbSync); " +
 		"R2 ACK provenance (every SendPSyncAck argument is 0 before the full sync is done, or ds.sourceOffset [+ the copy counter]; the copy counter is advanced by exactly the n of the Read whose bytes were written, once per chunk, after the write); " +
 		"R3 reconnect argument (SendPSyncContinue in the reconnect loop receives ds.sourceOffset itself and the caller's run id; the callee sends offset+1 unless -1 and returns the unincremented offset on CONTINUE); " +
-		"R4 single writer (ds.sourceOffset is written only before the incremental goroutines start or by the goroutine that reads it).",
+		"R4 single writer (ds.sourceOffset is written only before the incremental goroutines start or by the goroutine that reads it); " +
+		"R5 reader continuity (the buffered readers through which a PSYNC reply is parsed are exactly the buffered readers the copy loop pSyncPipeCopy reads from -- resolved through locals, parameters and results of module functions to the bufio.NewReader/NewReaderSize calls they denote, a variable standing for the definitions that reach the use on some path of the control-flow graph -- because what the source sends right behind +CONTINUE sits in the buffer of the reader that parsed the reply); " +
+		"R6 stamp base (every cmdDetail queued by parseSourceCommand builds its Offset from DbSyncer.sourceOffset and this iteration's decoder position only; a summand that reads another struct field is a violation when no write of that field in the module is fed by DbSyncer.sourceOffset).",
 	NotDecided: "the temporal statement over histories and reconnect points (monotonicity of ACKs, continuation at the exact byte after a reconnect): only the arithmetic provenance and the sharing discipline are decided.",
 	Trusted:    []string{"go/parser, go/types, go/cfg (x/tools v0.29.0)", "bufio.Reader.Read returns the number of bytes placed in p", "atomic2.Int64 Add/Get semantics"},
 	Run:        Run,
@@ -58,6 +60,11 @@ func Run(c *core.Ctx) {
 	c03.Expect(c, "R2.ack", 7)
 	c03.Expect(c, "R3.reconnect", 8)
 	c03.Expect(c, "R4.single-writer", 3)
+	// R5 / R6
+	readerContinuity(c)
+	c03.Expect(c, "R5.reader", 3)
+	stampBase(c)
+	c03.Expect(c, "R6.stamp", 3)
 }
 
 // gateReleased (R2): the ACK goroutine acknowledges 0 and leaves ds.sourceOffset
